@@ -51,7 +51,8 @@ class C16(flow.Spec):
                     same += 1
                     if same > 3:
                         c = 9
-                ms.append("%d %d" % (c, rnd.randrange(0, 2)))
+                # flag bit 0: ring0; flag >= 2: registered in our cluster first, then renewed (same address) into c
+                ms.append("%d %d" % (c, rnd.randrange(0, 2) + (2 if rnd.random() < 0.35 else 0)))
             out.append(("partners %d %d %s" % (mine, n, " ".join(ms)), {"partners"}))
             out.append(("bcast %d %d %s" % (mine, n, " ".join(ms)), {"bcast"}))
         return out
